@@ -37,6 +37,18 @@ def clusters_needed(op, g):
     return dirgrow + 1
 
 
+def _legit_rejection(op):
+    if op[0] in ("create", "makedir", "makedirs", "touch", "writebytes", "appendbytes", "copy", "move"):
+        p_ = op[2] if op[0] in ("copy", "move") else op[1]
+        if any(len(seg.encode("utf-16-le")) // 2 > 255 for seg in p_.split("/")):
+            return True
+    if op[0] == "setinfo":
+        for v in op[2].values():
+            if v is not None and not (315532800 <= v < 4354819200):
+                return True
+    return False
+
+
 def _open_paths(w):
     return {getattr(h, "name", None) for h in w.handles.values()}
 
@@ -114,12 +126,25 @@ def check_history(cfg, ops, remount_every=1, want=None, stop_on_first=False, io_
                         if alt is not None:
                             run_op(w.ref, alt)
                             d = diff_walks(walk_fs(w.ref), now, "ref", "live")
+                        if d and op[0] == "makedirs":
+                            # the helper creates the path level by level: any prefix may exist when a level fails
+                            segs = [x for x in op[1].split("/") if x]
+                            for k in range(1, len(segs)):
+                                run_op(w.ref, ["makedirs", "/" + "/".join(segs[:k]), True])
+                                d = diff_walks(walk_fs(w.ref), now, "ref", "live")
+                                if not d:
+                                    break
                     if d:
                         add(["C09", "C01"], "failed-op-changed-tree", "%s failed with ENOSPC but %s" % (opkind(op), d[:3]), i)
                         break
                 except Exception as e:  # noqa
                     add(["C09", "C01"], "failed-op-wedged", "%s after failed %s" % (common.exc_class(e), opkind(op)), i)
                     break
+                continue
+            if got[0] == "err" and is_sanctioned(got[1]) and _legit_rejection(op):
+                # limits the reference filesystem does not have (name > 255 units, time outside 1980..2107):
+                # rejecting is right; the tree must be untouched (checked by the following operations and at the end)
+                stats["rejected"] = stats.get("rejected", 0) + 1
                 continue
             exp = run_op(w.ref, op, w.rhandles)
             if got != exp:
